@@ -17,6 +17,7 @@
 #include "../model/model.hpp"
 #include "../seams/sim_alloc.hpp"
 #include "../seams/sim_stream.hpp"
+#include <set>
 #include "common.hpp"
 
 using namespace sim;
@@ -314,6 +315,7 @@ std::string run_case(Ctx &cx, const Prepared &p, const Case &c, std::string &det
     return "";
 }
 
+constexpr size_t BIG_DUMP = 200000; // dumps longer than this have their fault points sampled
 void enumerate_for(const Prepared &p, int kind, Rng &r, bool thorough, std::vector<Case> &cases);
 
 // Readers that must accept the unaltered dump: the writer's own type (-1) and every
@@ -343,7 +345,18 @@ void enumerate(const Prepared &p, int kind, Rng &r, bool thorough, std::vector<C
         enumerate_for(p, kind, r, thorough, cases);
         return;
     }
-    for (int rdr : accepting_readers(p, thorough)) {
+    std::vector<int> readers = accepting_readers(p, thorough);
+    if (p.len > BIG_DUMP && readers.size() > 2) {
+        // a large dump: the writer's own type and one reader of the other float width
+        int other = readers[1];
+        for (size_t i = 1; i < readers.size(); ++i)
+            if (g_stacks[readers[i]].storage != g_stacks[p.d.stack].storage) {
+                other = readers[i];
+                break;
+            }
+        readers = {-1, other};
+    }
+    for (int rdr : readers) {
         std::vector<Case> one;
         enumerate_for(p, kind, r, thorough, one);
         for (auto &c : one) {
@@ -353,21 +366,79 @@ void enumerate(const Prepared &p, int kind, Rng &r, bool thorough, std::vector<C
     }
 }
 
+// Large dumps: truncation points are sampled, not enumerated - the first bytes, every format
+// word and its neighbourhood, the last bytes, both sides of every 2^16-scalar and 1 MiB
+// boundary of the payload and of the file (where block-wise readers change block), and
+// `nrandom` seeded offsets.
+std::vector<size_t> sampled_offsets(const Prepared &p, Rng &r, int nrandom)
+{
+    std::set<size_t> o;
+    auto add = [&](long long b) {
+        if (b >= 0 && (size_t)b < p.len)
+            o.insert((size_t)b);
+    };
+    for (int b = 0; b < 40; ++b)
+        add(b);
+    for (auto &w : p.pd.words)
+        for (int k = -1; k <= 4; ++k)
+            add((long long)w.off + k);
+    for (int b = 1; b <= 64; ++b)
+        add((long long)p.len - b);
+    size_t w = p.pd.width ? p.pd.width : 4;
+    for (size_t blk : {(size_t)65536 * w, (size_t)1 << 20, (size_t)(1 << 20) * w}) {
+        int n = 0;
+        for (size_t m = blk; m < p.len && n < 3; m += blk, ++n)
+            for (int k = -1; k <= 1; ++k) {
+                add((long long)(p.pd.data_off + m) + k);
+                add((long long)m + k);
+            }
+        size_t last = (p.len / blk) * blk;
+        for (int k = -1; k <= 1; ++k)
+            add((long long)last + k);
+    }
+    for (int k = 0; k < nrandom; ++k)
+        add((long long)r.below(p.len));
+    return std::vector<size_t>(o.begin(), o.end());
+}
+
 void enumerate_for(const Prepared &p, int kind, Rng &r, bool thorough, std::vector<Case> &cases)
 {
     const StackDesc &sd = g_stacks[p.d.stack];
     switch (kind) {
     case K_TRUNC:
+        if (p.len > BIG_DUMP) {
+            for (size_t b : sampled_offsets(p, r, 48))
+                cases.push_back(Case{K_TRUNC, (long)b, 0, -1});
+            break;
+        }
         for (size_t b = 0; b < p.len; ++b)
             cases.push_back(Case{K_TRUNC, (long)b, 0, -1});
         break;
     case K_TEAR:
+        if (p.len > BIG_DUMP) {
+            for (size_t b : sampled_offsets(p, r, 4))
+                if (b % 7 == 0 || b + 64 > p.len)
+                    cases.push_back(Case{K_TEAR, (long)b, 0, -1});
+            break;
+        }
         // same byte strings as K_TRUNC, produced by really interrupting the writer;
         // every 5th offset in the quick tier, every offset in the thorough tier
         for (size_t b = 0; b < p.len; b += thorough ? 1 : 5)
             cases.push_back(Case{K_TEAR, (long)b, 0, -1});
         break;
     case K_IOTHROW:
+        if (p.len > BIG_DUMP && p.clean_refills > 64) {
+            std::set<size_t> ns;
+            for (size_t n = 1; n <= 8; ++n)
+                ns.insert(n);
+            for (size_t n = p.clean_refills - 4; n <= p.clean_refills; ++n)
+                ns.insert(n);
+            for (int k = 0; k < 24; ++k)
+                ns.insert(1 + (size_t)r.below(p.clean_refills));
+            for (size_t n : ns)
+                cases.push_back(Case{K_IOTHROW, (long)n, 0, -1});
+            break;
+        }
         for (size_t n = 1; n <= p.clean_refills; ++n)
             cases.push_back(Case{K_IOTHROW, (long)n, 0, -1});
         break;
@@ -394,6 +465,12 @@ void enumerate_for(const Prepared &p, int kind, Rng &r, bool thorough, std::vect
             vals.push_back(~0u);
             vals.push_back(FM_MAGIC_HEADER);
             vals.push_back(FM_MAGIC_FOOTER);
+            if (p.len > BIG_DUMP) {
+                // every case reloads megabytes: a handful of replacement values per word
+                vals.assign({orig ^ 1u, orig ^ 0x80000000u, orig + FM_FOOTER_ADD, orig - FM_FOOTER_ADD, 0u, ~0u, (uint32_t)r.next()});
+                if (w.kind == W_WIDTH)
+                    vals.push_back(orig == 4 ? 8 : 4);
+            }
             if (w.kind == W_WIDTH) {
                 vals.push_back(orig == 4 ? 8 : 4);
                 for (uint32_t v = 0; v <= 16; ++v)
@@ -442,13 +519,46 @@ std::vector<size_t> gen_ext(Rng &r, const StackDesc &d, bool small)
     }
 }
 
-DumpSpec gen_dump(uint64_t seed, int stack, int di, bool small)
+// A large dump (2^18 .. 2^21 stored scalars, 1 .. 16 MiB): block-wise or staged readers
+// only leave their first block on payloads like these.
+std::vector<size_t> gen_big_ext(Rng &r, const StackDesc &d)
+{
+    std::vector<size_t> e(d.N);
+    for (int attempt = 0; attempt < 200; ++attempt) {
+        double scalars = std::exp2(18.0 + 3.0 * r.unit());
+        double rest = scalars / (double)std::max(d.M, 1);
+        for (int k = 0; k < d.N; ++k) {
+            double share = std::pow(rest, 1.0 / (double)(d.N - k));
+            size_t v = (size_t)std::max(2.0, std::floor(k + 1 < d.N ? share * (0.7 + 0.6 * r.unit()) : rest));
+            if (r.chance(0.5))
+                v |= 1;
+            e[k] = v;
+            rest = std::max(2.0, rest / (double)v);
+        }
+        if (storage_len(d, e) * (size_t)d.M <= (size_t(3) << 21))
+            return e;
+    }
+    return std::vector<size_t>(d.N, 33);
+}
+
+DumpSpec gen_dump(uint64_t seed, int stack, int di, bool small, bool big = false)
 {
     static const int chunks[] = {1, 2, 3, 4, 7, 8, 16, 64, 4096};
+    static const int big_chunks[] = {4096, 8192, 65536, 1 << 20};
     DumpSpec d;
     d.stack = stack;
-    Rng r(mix64(mix64(seed, (uint64_t)stack + 1000), (uint64_t)di));
+    Rng r(mix64(mix64(seed, (uint64_t)stack + (big ? 5000 : 1000)), (uint64_t)di));
     d.dseed = r.next() & 0xffffffffffffull;
+    if (big) {
+        d.getbuf = big_chunks[r.below(4)];
+        d.putbuf = big_chunks[r.below(4)];
+        d.exc = (int)r.below(3);
+        d.pre = r.chance(0.3) ? (int)r.range(1, 9) : 0;
+        d.post = r.chance(0.5) ? (int)r.range(1, 24) : 0;
+        d.seek = r.chance(0.5) ? 1 : 0;
+        d.ext = gen_big_ext(r, g_stacks[stack]);
+        return d;
+    }
     d.getbuf = chunks[r.below(9)];
     d.putbuf = chunks[r.below(9)];
     d.exc = (int)r.below(3);
@@ -626,6 +736,39 @@ int main(int argc, char **argv)
             DumpSpec d = gen_dump(seed, s, di, small);
             for (int k = 0; k < K_NKINDS; ++k)
                 units.push_back(Unit{d, k});
+        }
+    }
+    // large dumps: one per layout stack (the first `bigdumps` of them, rotated by the seed)
+    {
+        int nbig = (int)args.u64("bigdumps", 0);
+        std::vector<Unit> bigunits;
+        std::vector<int> cand;
+        for (int s = 0; s < g_nstacks; ++s) {
+            const StackDesc &sd = g_stacks[s];
+            if (!ops_of(s).has_io || !ops_of(s).has_core || sd.device || sd.shape != SHAPE_LAYOUT)
+                continue;
+            if (sd.tier == 1 && !thorough)
+                continue;
+            cand.push_back(s);
+        }
+        for (int k = 0; k < nbig && !cand.empty(); ++k) {
+            int s = cand[(size_t)(seed + (uint64_t)k * 7) % cand.size()];
+            DumpSpec d = gen_dump(seed, s, k, false, true);
+            for (int kind : {(int)K_TRUNC, (int)K_TEAR, (int)K_IOTHROW, (int)K_WORD, (int)K_PRESTATE})
+                bigunits.push_back(Unit{d, kind});
+        }
+        // spread them evenly over the unit list (workers take contiguous ranges of it)
+        if (!bigunits.empty()) {
+            std::vector<Unit> merged;
+            size_t stride = std::max<size_t>(1, units.size() / bigunits.size()), bi = 0;
+            for (size_t i = 0; i < units.size(); ++i) {
+                if (i % stride == 0 && bi < bigunits.size())
+                    merged.push_back(bigunits[bi++]);
+                merged.push_back(units[i]);
+            }
+            while (bi < bigunits.size())
+                merged.push_back(bigunits[bi++]);
+            units.swap(merged);
         }
     }
     if (args.has("emit-case")) {
